@@ -10,7 +10,7 @@ def build(ctx):
     objs, log = ctx.lib_objects(exclude=("evical.c",))
     if objs is None:
         raise common.Broken("library does not compile: " + log[-1500:])
-    exe, log = ctx.cc("hx_strm", [os.path.join(common.HARNESS, "hx_strm.c")] + objs)
+    exe, log = ctx.cc("hx_strm", [os.path.join(common.HARNESS, "hx_strm.c")] + objs, extra=common.HOOKS)
     if exe is None:
         raise common.Broken("harness hx_strm does not compile against the working tree:\n" + log[-1500:])
     return exe
